@@ -152,6 +152,8 @@ def probes(ctx):
           "SELECT DISTINCT ON (k) k AS p FROM t1 ORDER BY k DESC NULLS LAST, a1 NULLS FIRST")
     probe("probe/qualify+limit:duckdb->sqlite", "duckdb", "sqlite",
           "SELECT a1 AS p FROM t1 QUALIFY ROW_NUMBER() OVER (ORDER BY a1 NULLS FIRST) = 2 ORDER BY p NULLS FIRST LIMIT 1")
+    probe("probe/qualify-with-qualified-column-predicate:duckdb->sqlite", "duckdb", "sqlite",
+          "SELECT x.a1 AS p FROM t1 AS x QUALIFY ROW_NUMBER() OVER (ORDER BY x.a1 NULLS FIRST) <= 3 AND x.k > 0 ORDER BY p NULLS FIRST")
     probe("probe/time:timestamp-literal:duckdb->sqlite", "duckdb", "sqlite",
           "SELECT k FROM t1 WHERE d1 < TIMESTAMP '2001-01-01 00:00:00' ORDER BY 1 NULLS FIRST")
     E.close()
